@@ -8,6 +8,7 @@ AST node shapes (tuples):
   ('If', c, a, b) ('BinOp', op, l, r) ('CmpOp', op, l, r)
   ('MakeArray', (args...)) ('ArrayLen', a) ('ToArray', s) ('CastToArray', a) ('ToStream', a)
   ('StreamMap', name, a, body) ('StreamFilter', name, a, body) ('StreamFold', acc, val, a, zero, body)
+  ('StreamAgg', name, a, body) ('StreamAggScan', name, a, body)
   ('MakeStruct', ((f, x)...)) ('GetField', f, o) ('InsertFields', old, order|None, ((f, x)...)) ('SelectFields', (f...), old)
   ('ApplyAggOp'|'ApplyScanOp', op, (init...), (seq...))   ('AggFilter', is_scan, cond, body)
   ('TableRange', n) ('TableMapRows', table, new_row) ('TableAggregate', table, query)
@@ -125,6 +126,9 @@ def interp(sx):
     if k in ('StreamMap', 'StreamFilter'):
         need(3)
         return (k, _ident(a[0]), interp(a[1]), interp(a[2]))
+    if k in ('StreamAgg', 'StreamAggScan'):
+        need(3)
+        return (k, _ident(a[0]), interp(a[1]), interp(a[2]))
     if k == 'StreamFold':
         need(5)
         return ('StreamFold', _ident(a[0]), _ident(a[1]), interp(a[2]), interp(a[3]), interp(a[4]))
@@ -225,6 +229,16 @@ def check_scopes(ast):
             w(x[4], ev, ag, sc, cse_let)
             w(x[5], ev | {x[1], x[2]}, ag, sc, cse_let)
             return
+        if k == 'StreamAgg':
+            # the body is evaluated in the enclosing value context; its aggregated arguments see that context plus the element
+            w(x[2], ev, ag, sc, cse_let)
+            w(x[3], ev, ev | {x[1]}, None, cse_let)
+            return
+        if k == 'StreamAggScan':
+            # the element is visible both to the body's value context and to its scanned arguments
+            w(x[2], ev, ag, sc, cse_let)
+            w(x[3], ev | {x[1]}, None, ev | {x[1]}, cse_let)
+            return
         if k in ('ApplyAggOp', 'ApplyScanOp'):
             ctx = ag if k == 'ApplyAggOp' else sc
             if ctx is None:
@@ -282,7 +296,7 @@ def _plain_children(x):
 
 def _collect_binders(x, out):
     k = x[0]
-    if k in ('Let', 'StreamMap', 'StreamFilter'):
+    if k in ('Let', 'StreamMap', 'StreamFilter', 'StreamAgg', 'StreamAggScan'):
         out.add(x[1])
     elif k == 'AggLet':
         out.add(x[1])
@@ -407,6 +421,13 @@ def evaluate(x, lit, env=None, agg=None, scan=None):
         return [evaluate(x[3], lit, {**env, x[1]: e}) for e in evaluate(x[2], lit, env, agg, scan)]
     if k == 'StreamFilter':
         return [e for e in evaluate(x[2], lit, env, agg, scan) if evaluate(x[3], lit, {**env, x[1]: e})]
+    if k == 'StreamAgg':
+        rows = [{**env, x[1]: e} for e in evaluate(x[2], lit, env, agg, scan)]
+        return evaluate(x[3], lit, env, rows, None)
+    if k == 'StreamAggScan':
+        a = list(evaluate(x[2], lit, env, agg, scan))
+        rows = [{**env, x[1]: e} for e in a]
+        return [evaluate(x[3], lit, rows[i], None, rows[:i]) for i in range(len(a))]
     if k == 'StreamFold':
         acc = evaluate(x[4], lit, env, agg, scan)
         for e in evaluate(x[3], lit, env, agg, scan):
